@@ -6,6 +6,8 @@ import (
 	"fmt"
 	"go/token"
 	"sort"
+	"strings"
+	"time"
 
 	"golang.org/x/tools/go/ssa"
 )
@@ -501,4 +503,194 @@ func r15_8(c *Ctx, r *Report) {
 		}
 	}
 	r.check(len(bad) == 0 && n == 6, rule, constructB, c.pos(step.Pos()), fmt.Sprintf("%d scenarios followed from the step to the next push or the return; deviations: %v", n, headList(bad, 3)))
+}
+
+// absWeek is a week object inside the evaluator: the date it was made from and its first weekday.
+type absWeek struct{ y, m, d, start int64 }
+
+// R15.10: the month-separated walk of SolarWeek.Next.
+func r15_10(c *Ctx, r *Report) {
+	const rule = "R15.10"
+	r.rule(rule, "Moving by month-separated weeks walks the sequence (month, week 1..k), (next month, week 1..) one position per step. SolarWeek.Next(n, true) is followed by the evaluator (its loop as a table over the iteration number; the week helpers, function literals and constructors inline or as records; civil-day stepping, weekdays and month lengths supplied by the checker's own calendar) for every day from 2021-11-20 to 2022-03-10, all seven first weekdays and n in {1, 2, 5, -1, -2, -5}: the week it returns lies in the month, and has the index in that month, that the walk states — index+1 within a month of k weeks, (next month, 1) after week k, index-1, (previous month, its last week) before week 1 — where k = ceil((days of the month + offset of its first day)/7) and the index of a day is ceil((day + offset)/7). Moving 0 weeks returns the same week.")
+	fn := c.Fn(r, rule, "calendar.(*SolarWeek).Next")
+	if fn == nil || len(fn.Params) != 3 {
+		return
+	}
+	civil := func(y, m, d int64) time.Time { return time.Date(int(y), time.Month(m), int(d), 0, 0, 0, 0, time.UTC) }
+	daysOf := func(y, m int64) int64 { return int64(civil(y, m+1, 0).Day()) }
+	offsetOf := func(y, m, start int64) int64 { return (int64(civil(y, m, 1).Weekday()) - start + 7) % 7 }
+	indexOf := func(y, m, d, start int64) int64 { return (d + offsetOf(y, m, start) + 6) / 7 }
+	weeksOf := func(y, m, start int64) int64 { return (daysOf(y, m) + offsetOf(y, m, start) + 6) / 7 }
+	var bad []string
+	problems := map[string]bool{}
+	n := 0
+	first, last := civil(2021, 11, 20), civil(2022, 3, 10)
+	for day := first; !day.After(last) && len(bad) < 4 && len(problems) == 0; day = day.AddDate(0, 0, 1) {
+		y0, m0, d0 := int64(day.Year()), int64(day.Month()), int64(day.Day())
+		for start := int64(0); start < 7; start++ {
+			for _, steps := range []int64{0, 1, 2, 5, -1, -2, -5} {
+				var leaf leafX
+				asDate := func(fr *evalFrame, v ssa.Value) (absDate, bool) {
+					o, ok := evalWith(fr, v, leaf)
+					dt, isD := o.(absDate)
+					return dt, ok && isD
+				}
+				ints := func(fr *evalFrame, args []ssa.Value) ([]int64, bool) {
+					var out []int64
+					for _, a := range args {
+						o, ok := evalWith(fr, a, leaf)
+						k, isI := o.(int64)
+						if !ok || !isI {
+							return nil, false
+						}
+						out = append(out, k)
+					}
+					return out, true
+				}
+				leaf = func(fr *evalFrame, v ssa.Value) (interface{}, bool) {
+					if fr.parent == nil {
+						switch v {
+						case ssa.Value(fn.Params[1]):
+							return steps, true
+						case ssa.Value(fn.Params[2]):
+							return true, true
+						}
+					}
+					if rc, f, ok := getterField(c, v); ok {
+						if strings.HasPrefix(f, "SolarWeek.") {
+							var w absWeek
+							if ofr, o := fr.origin(rc); ofr.parent == nil && o == ssa.Value(fn.Params[0]) {
+								w = absWeek{y0, m0, d0, start}
+							} else if o, ok := evalWith(fr, rc, leaf); ok {
+								ww, isW := o.(absWeek)
+								if !isW {
+									return nil, false
+								}
+								w = ww
+							} else {
+								return nil, false
+							}
+							switch f {
+							case "SolarWeek.year":
+								return w.y, true
+							case "SolarWeek.month":
+								return w.m, true
+							case "SolarWeek.day":
+								return w.d, true
+							case "SolarWeek.start":
+								return w.start, true
+							}
+							return nil, false
+						}
+						if strings.HasPrefix(f, "Solar.") {
+							if dt, ok := asDate(fr, rc); ok {
+								switch f {
+								case "Solar.year":
+									return dt.y, true
+								case "Solar.month":
+									return dt.m, true
+								case "Solar.day":
+									return dt.d, true
+								}
+							}
+							return nil, false
+						}
+					}
+					call, ok := v.(*ssa.Call)
+					if !ok || call.Common().StaticCallee() == nil {
+						return nil, false
+					}
+					args := call.Common().Args
+					switch fname(call.Common().StaticCallee()) {
+					case "calendar.NewSolarFromYmd":
+						if a, ok := ints(fr, args); ok && len(a) == 3 {
+							return absDate{a[0], a[1], a[2]}, true
+						}
+						return nil, false
+					case "calendar.NewSolarWeekFromYmd":
+						if a, ok := ints(fr, args); ok && len(a) == 4 {
+							return absWeek{a[0], a[1], a[2], a[3]}, true
+						}
+						return nil, false
+					case "calendar.(*Solar).NextDay":
+						dt, ok1 := asDate(fr, args[0])
+						k, ok2 := ints(fr, args[1:])
+						if ok1 && ok2 {
+							t := civil(dt.y, dt.m, dt.d).AddDate(0, 0, int(k[0]))
+							return absDate{int64(t.Year()), int64(t.Month()), int64(t.Day())}, true
+						}
+						return nil, false
+					case "calendar.(*Solar).GetWeek":
+						if dt, ok := asDate(fr, args[0]); ok {
+							return int64(civil(dt.y, dt.m, dt.d).Weekday()), true
+						}
+						return nil, false
+					case "SolarUtil.GetWeek":
+						if a, ok := ints(fr, args); ok && len(a) == 3 {
+							return int64(civil(a[0], a[1], a[2]).Weekday()), true
+						}
+						return nil, false
+					case "SolarUtil.GetDaysOfMonth":
+						if a, ok := ints(fr, args); ok && len(a) == 2 && a[1] >= 1 && a[1] <= 12 {
+							return daysOf(a[0], a[1]), true
+						}
+						return nil, false
+					case "SolarUtil.GetDaysBetween":
+						if a, ok := ints(fr, args); ok && len(a) == 6 {
+							return int64(civil(a[3], a[4], a[5]).Sub(civil(a[0], a[1], a[2])).Hours() / 24), true
+						}
+						return nil, false
+					}
+					return nil, false
+				}
+				ev := &evaluator{inline: inlineLibrary, leaf: leaf, counted: 64}
+				res, outcome := ev.run(fn, nil, nil, nil, nil)
+				n++
+				// the walk, as stated
+				y, m, idx := y0, m0, indexOf(y0, m0, d0, start)
+				for k := steps; k != 0; {
+					if k > 0 {
+						if idx < weeksOf(y, m, start) {
+							idx++
+						} else {
+							m++
+							if m > 12 {
+								y, m = y+1, 1
+							}
+							idx = 1
+						}
+						k--
+					} else {
+						if idx > 1 {
+							idx--
+						} else {
+							m--
+							if m < 1 {
+								y, m = y-1, 12
+							}
+							idx = weeksOf(y, m, start)
+						}
+						k++
+					}
+				}
+				if outcome != "return" || len(res) != 1 {
+					problems["the function could not be followed: "+outcome+" "+ev.fail] = true
+					continue
+				}
+				w, isW := res[0].(absWeek)
+				if !isW {
+					problems[fmt.Sprintf("the result is not a week built by NewSolarWeekFromYmd: %v", res[0])] = true
+					continue
+				}
+				if w.y != y || w.m != m || indexOf(w.y, w.m, w.d, w.start) != idx || w.start != start {
+					bad = append(bad, fmt.Sprintf("%d-%02d-%02d, weeks starting on weekday %d, %+d: week of %d-%02d-%02d (month %d-%d, week %d), stated month %d-%d, week %d", y0, m0, d0, start, steps, w.y, w.m, w.d, w.y, w.m, indexOf(w.y, w.m, w.d, w.start), y, m, idx))
+				}
+			}
+		}
+	}
+	for p := range problems {
+		bad = append(bad, p)
+	}
+	sort.Strings(bad)
+	r.check(len(bad) == 0 && n > 5000, rule, "calendar.(*SolarWeek).Next(n, true) walks (month, week) positions one per step", c.fnPos(fn), fmt.Sprintf("%d cases (day x first weekday x n); deviations: %v", n, headList(bad, 3)))
 }
